@@ -10,7 +10,7 @@ import (
 func init() {
 	register(&Property{
 		ID: "C11", Level: "exploration", Builds: []string{"plain"},
-		Rule:        "cases = lists of 0..12 bitmaps (empty members, duplicates by pointer and by value, shuffled order; members in 11 storage forms incl. copy-on-write clones and zero-copy decodes) x chunk-kind mixes x key placement {bottom, middle, TOP of the key space ending at 0xFFFF} x key spans {1,2,3,4w-1,4w,4w+1,17,300,1000} for the chosen worker count w; each case evaluates FastOr, HeapOr, ParOr, ParHeapOr (union), FastAnd, ParAnd (intersection), HeapXor (symmetric difference) and x.AndAny(list), the parallel ones for workers {0,1,2,3,4,7,16,33} (a sample of 3 per case) and compares with the fold over the interval-set model, requires Validate()==nil on every result, equality across worker counts, unchanged inputs (raw storage hash) and an unchanged caller slice. Non-trivial: >= 2 non-empty members; distinct = hash(members, placement).",
+		Rule:        "cases = lists of 0..12 (4 % of them 13..132) bitmaps (empty members, duplicates by pointer and by value, shuffled order; members in 11 storage forms incl. copy-on-write clones and zero-copy decodes) x chunk-kind mixes x key placement {bottom, middle, TOP of the key space ending at 0xFFFF} x key spans {1,2,3,4w-1,4w,4w+1,17,300,1000} for the chosen worker count w; each case evaluates FastOr, HeapOr, ParOr, ParHeapOr (union), FastAnd, ParAnd (intersection), HeapXor (symmetric difference) and x.AndAny(list), the parallel ones for workers {0,1,2,3,4,7,16,33} (a sample of 3 per case) and compares with the fold over the interval-set model, requires Validate()==nil on every result, equality across worker counts, unchanged inputs (raw storage hash) and an unchanged caller slice. Non-trivial: >= 2 non-empty members; distinct = hash(members, placement).",
 		Assumptions: []string{"interval-set model validated by selfcheck", "AndAny with an empty list is out of the statement (non-empty list required)"},
 		Units: []Unit{
 			{Name: "aggregates", Quick: 2500, Thorough: 120000, Run: func(c *Ctx) { c11Aggregates(c, false) }},
@@ -57,6 +57,9 @@ func genAggMembers(c *Ctx) *aggMembers {
 	}
 	if a.span > 100 && n > 5 {
 		n = 2 + r.Intn(4)
+	}
+	if a.span <= 20 && r.Chance(0.04) {
+		n = 13 + r.Intn(120) // long lists (heap-based aggregates, more members than workers / channel slots)
 	}
 	heavy := 0.4
 	if a.span > 20 {
